@@ -383,7 +383,7 @@ def corpus(ctx, chi):
 def run(ctx):
     chi = core.import_chi()
     corpus(ctx, chi)
-    n = 250 if ctx.tier == 'quick' else 9000
+    n = 1000 if ctx.tier == 'quick' else 9000
     for i in range(n):
         rng = ctx.sub_rng(i)
         n_ids, subs = gen_case(rng)
